@@ -374,7 +374,8 @@ def boundary_defaults_into(rnd, doc):
                 t, f = s["type"], s.get("format")
                 lo, hi = s.get("minimum"), s.get("maximum")
                 cand = None
-                if t == "integer" and lo is None and hi is None:
+                has_excl = s.get("exclusiveMinimum") is not None or s.get("exclusiveMaximum") is not None
+                if t == "integer" and lo is None and hi is None and not has_excl and not s.get("multipleOf"):
                     rng = schemagen.INT_FORMATS.get(f, (I64MIN, I64MAX))
                     cand = [rng[0], rng[1]] + ([2**53 + 1] if rng[1] > 2**53 else [])
                 elif t == "integer":
